@@ -26,6 +26,9 @@ def items(tier, seed):
     pats = [0, (1 << 24) - 1] + [rnd.getrandbits(24) for _ in range(2 if tier == "quick" else 6)]
     for g in range(6):
         out.append(("cap17-g%d" % g, {"group": g, "patterns": pats}))
+    # history mode (harness.decide): the same decoder on an earlier frame with another MB field / capability nibble first
+    out += [(n + "@after:MB", {}) for n in sorted(S.FIELDS) if n != "vr53"]
+    out += [("cap17-g%d@after:cap%d" % (g, g), {"group": g, "patterns": pats[:3]}) for g in range(6)]
     return out
 
 
@@ -139,6 +142,7 @@ def run_item(item):
             fields += [("rest", 32), ("AP", 24)]
             fr2 = H.Frame(fields, prefix="p%06x_" % pat, case="upper")
             item.declare(fr2)
+            item.hist_frame, item.hist_fr0 = fr2, None      # history mode: the earlier frame is a sibling of this one
             capbits = [b for k in range(6) for b in fr2["cap%d" % k].bits]
 
             def post(kind, v):
